@@ -1,0 +1,5 @@
+//go:build !verif
+
+package kit
+
+func verifFileAccess(string, string) {}
